@@ -234,8 +234,13 @@ def c23_menu(b):
     # trafo AND trafo3w in one net, two trafos so that a trafo3w label can equal the label of the SECOND trafo
     # (representation "skew"), an open switch at either trafo
     if b == "W3":
-        extra += [["multi", [["trafo", 0, 1], ["trafo", 0, 1], ["switch", 0, 1, "t", False, 0.]]],
-                  ["multi", [["trafo", 0, 1], ["trafo", 0, 1], ["switch", 1, 0, "t", False, 0.]]]]
+        # (the second trafo differs in its tap so that a switch landing on the wrong trafo moves voltages; the last net
+        # also opens the trafo3w's own switch: whichever table create_continuous_elements_index happens to re-index
+        # first - it iterates over a set - one of the two open switches is the one that can be mis-linked)
+        t2 = ["trafo", 0, 1, {"tap_pos": 2}]
+        extra += [["multi", [["trafo", 0, 1], t2, ["switch", 0, 1, "t", False, 0.]]],
+                  ["multi", [["trafo", 0, 1], t2, ["switch", 1, 0, "t", False, 0.]]],
+                  ["multi", [["trafo", 0, 1], t2, ["switch", 0, 1, "t", False, 0.], ["set", "switch", 0, "closed", False]]]]
     for d in extra:
         if d not in m:
             m.append(d)
